@@ -11,6 +11,7 @@ CONSTANTS T = 8
           Unaligned = FALSE
           MaxHist = 2
           HistLen = 2
+          CaseWorlds = {2}
 INVARIANTS RespIsDirect C42_ExtentsHoldDirectData C42_ExtentsOrdered
 PROPERTIES C42_ResponsesAreDirect
 VIEW View
